@@ -11,9 +11,20 @@ Ties:
       loop + Kalman smoother on the augmented state (lib/PlansCase.v over model/Plans.v Part B and model/Kalman.v)
       evaluated in 2^-384 fixed point, within 1e-7*(1+|x|); on exactly linear models the same numbers are required
       from method="stacked_time".
+  (c) translator/planloop.py regenerates gen/PlanLoopGen.v on every run: the element formula of
+      get_register_as_bool_array and _is_active_status, and what the frame loop of variant k of Inlay.simulate receives
+      (model variant, input_data_array, working data); model/SimVariants.v and proofs/PlanLoopProofs.v are stated over
+      these fragments; in (b) a share of the plans is built by call histories with status=False (points switched off,
+      on/off/on) and a share of the simulations is ONE call on a model with 2-3 parameter variants and a databox with
+      one column per variant (own initial conditions, shocks, stds, targets): variant k of the output is compared with
+      the model evaluated on variant k's solution matrices and variant k's input columns.
 Falsifier (public API only): exogenized cells keep their input values, only endogenized shocks at endogenized dates
 change, the result satisfies the model equations (residual evaluator of C01), a swap round trip recovers the driving
 shocks and the whole path; both modes, both methods, plus nonlinear stacked-time round trips on the models of C06.
+The plan the property speaks about is the EFFECTIVE plan (the points whose last write had status=True): plans are also
+built by histories in which points are switched on, off and on again, and decoy points that end switched off must
+behave as never planned.  Models with several parameter variants / databoxes with several columns: every variant is
+checked against its own inputs (Failure.key carries "+status-off" / "+variants" when the case uses the dimension).
 """
 from __future__ import annotations
 
@@ -29,12 +40,13 @@ import numpy as np
 from vf import core
 from vf.core import CorrResult, Disagreement, Failure
 from translator import frames as trf
+from translator import planloop as trpl
 from harness import C01
 from harness import kalman_common as KC
 
 ID = "C07"
 PROPS = "props/C07.v"
-GENERATED = [trf.OUT]
+GENERATED = [trf.OUT, trpl.OUT]
 CASE_DEPS = ["lib/CaseUtil.vo", "lib/PlansCase.vo"]
 ALLOWED_AXIOMS: set = set()
 TRUSTED = [
@@ -62,7 +74,10 @@ MANIFEST = {
                   "invertible F_t), only endogenized shocks change, the result is the ordinary first-order simulation "
                   "of the returned shocks (including _generate_R = anticipated impact of the endogenized increments), "
                   "swap inverts a simulation under a non-singular impact map; plan registers = last write wins over "
-                  "any call history. Not proved: invertibility of F_t from the impact matrix; stacked_time relies on "
+                  "any call history, and the boolean incidence the simulators read = points whose last write was "
+                  "status=True (element formula regenerated from the source); the loop over variants is pointwise "
+                  "(variant k = one-variant simulation of model variant k on input column k; generated from the "
+                  "source), so every variant hits its own inputs. Not proved: invertibility of F_t from the impact matrix; stacked_time relies on "
                   "C06's theorems (unknown cells, stacked residual) with Newton as oracle. Array plumbing of "
                   "_simulate_conditional and the frame loop are modelled and tied by correspondence only.",
 }
@@ -73,6 +88,7 @@ START = C01.START
 
 def translate(ctx):
     trf.run()
+    trpl.run()
 
 
 # =====================================================================================
@@ -196,7 +212,7 @@ def n_frames(case) -> int:
     return len(bp)
 
 
-def gen_case(rng, spec, m, method="first_order", mode=None):
+def gen_case(rng, spec, m, method="first_order", mode=None, p_hist=0.0, p_var=0.0):
     nper = rng.randint(2, 8)
     mode = mode or rng.choice(["U", "A", "A", "M"])
     pl = gen_plan(rng, spec, m, nper, mode)
@@ -225,9 +241,213 @@ def gen_case(rng, spec, m, method="first_order", mode=None):
     noise = [r(-0.2, 0.2) for _ in pl["targ"]]
     stds = {str(s): rng.choice([0.5, 1.0, 1.0, 2.0]) for s in range(spec["nshocks"])}
     dev = (rng.random() < 0.5) if method == "first_order" else False
-    return {"spec": spec, "nper": nper, "deviation": dev, "mode": mode, "method": method, "kind": kind,
+    case = {"spec": spec, "nper": nper, "deviation": dev, "mode": mode, "method": method, "kind": kind,
             "inst": [list(c) for c in pl["inst"]], "targ": [list(c) for c in pl["targ"]], "tA_end": pl["tA_end"],
             "estar": estar, "bg": bg, "init": init, "noise": noise, "stds": stds}
+    if rng.random() < p_hist:
+        case["hist"] = gen_hist(rng, case)
+    if rng.random() < p_var:
+        vs = gen_variants(rng, case, m)
+        if vs:
+            case["variants"] = vs
+            # same parameters in every variant: the model object keeps ONE variant and the number of variants is given
+            # by simulate(..., num_variants=) (the model variant is then repeated by iter_variants)
+            if all(v["factor"] is None for v in vs) and rng.random() < 0.4:
+                case["nv_kwarg"] = True
+    return case
+
+
+# ---- call histories: the plan is built by a sequence of calls in which points are switched on, off (status=False)
+# and on again; `inst`/`targ` are the points whose LAST write has status=True (the effective plan the property is
+# about); the other points of the history ("decoys") must behave as if they had never been planned
+
+def gen_hist(rng, case) -> list:
+    spec, nper = case["spec"], case["nper"]
+    n, ns = spec["n"], spec["nshocks"]
+    seqs = []
+    eff_x = {(j, t) for (j, t, _k) in case["targ"]}
+    eff_e = {(k, s, t) for (k, s, t) in case["inst"]}
+    for (k, s, t) in case["inst"]:
+        reg = "endogenized_unanticipated" if k == "u" else "endogenized_anticipated"
+        seqs.append([["w", reg, s, t, b] for b in rng.choice([[True], [True], [True, False, True], [False, True]])])
+    for (j, t, k) in case["targ"]:
+        reg = "exogenized_unanticipated" if k == "u" else "exogenized_anticipated"
+        seqs.append([["w", reg, j, t, b] for b in rng.choice([[True], [True], [True, False, True], [False, True]])])
+    used = set()
+    for _ in range(rng.randint(1, 3)):
+        t = rng.randrange(nper)
+        ant = rng.random() < 0.5
+        j, sh = rng.randrange(n), rng.randrange(ns)
+        # a variable is not a decoy at a date at which it is a target (in either mode); likewise a shock cell
+        okx = (j, t) not in eff_x and ("x", j, t) not in used
+        oke = (("v" if ant else "u"), sh, t) not in eff_e and ("e", ant, sh, t) not in used
+        r = rng.random()
+        rx = "exogenized_anticipated" if ant else "exogenized_unanticipated"
+        re_ = "endogenized_anticipated" if ant else "endogenized_unanticipated"
+        if r < 0.4 and okx and oke:
+            seqs.append([["s", ant, j, sh, t, True], ["s", ant, j, sh, t, False]])
+            used |= {("x", j, t), ("e", ant, sh, t)}
+        elif r < 0.7 and okx:
+            seqs.append([["w", rx, j, t, b] for b in rng.choice([[True, False], [False], [True, False, False]])])
+            used.add(("x", j, t))
+        elif oke:
+            seqs.append([["w", re_, sh, t, b] for b in rng.choice([[True, False], [False], [True, True, False]])])
+            used.add(("e", ant, sh, t))
+    # random interleaving that keeps the order of the writes to one point
+    out = []
+    seqs = [q for q in seqs if q]
+    while seqs:
+        q = rng.choice(seqs)
+        out.append(q.pop(0))
+        seqs = [q for q in seqs if q]
+    return out
+
+
+def hist_has_off(case) -> bool:
+    return any(op[-1] is False for op in case.get("hist", []))
+
+
+# ---- variants: one model object with several parameter variants (or one parameterisation altered to several
+# variants), one plan, an input databox whose series carry one column per variant with variant-specific initial
+# conditions, background shocks, std_ values and targets
+
+def scale_spec(spec, f):
+    sp = json.loads(json.dumps(spec))
+    q = lambda c: round(c * f, 4)  # noqa
+    for e in sp["eqs"]:
+        e["terms"] = [[j, sh, q(c)] for (j, sh, c) in e["terms"]]
+        e["const"] = q(e["const"])
+    for mm in sp["meas"]:
+        mm["terms"] = [[j, sh, q(c)] for (j, sh, c) in mm["terms"]]
+        mm["const"] = q(mm["const"])
+    return sp
+
+
+def gen_variants(rng, case, m) -> list:
+    spec, nper = case["spec"], case["nper"]
+    nv = rng.choice([2, 2, 3])
+    r = lambda lo, hi: C01._r(rng, lo, hi, 3)  # noqa
+    src0, params = C01.render_source(spec)
+    par_ok = bool(params) and not spec.get("growth") and not any(e["nl"] for e in spec["eqs"])
+    icells = {tuple(c) for c in case["inst"]}
+    bgcells = {(k, s, t) for (k, s, t, _v) in case["bg"]}
+    out = []
+    for k in range(1, nv):
+        f = None
+        if par_ok and rng.random() < 0.7:
+            f = rng.choice([0.97, 0.95, 0.92, 1.03])
+            sk = scale_spec(spec, f)
+            got = get_model(sk)
+            if got is None or C01.render_source(sk)[0] != src0 or not plan_ok(case, sk, got[0]):
+                f = None
+        # background shocks: the unanticipated ones stay at the dates of variant 0 or are dropped (same rule on break
+        # points as in gen_case); new values everywhere
+        bg = [[kk, s, t, r(-1, 1)] for (kk, s, t, _v) in case["bg"] if rng.random() < 0.8]
+        out.append({"factor": f,
+                    "estar": [[kk, s, t, r(-1, 1)] for (kk, s, t, _v) in case["estar"]],
+                    "bg": bg,
+                    "init": [[j, back, r(-0.3, 0.3)] for (j, back, _v) in case["init"]],
+                    "noise": [r(-0.2, 0.2) for _ in case["targ"]],
+                    "stds": {s: rng.choice([0.5, 1.0, 2.0]) for s in case["stds"]}})
+    return out
+
+
+def plan_ok(case, spec_k, m_k) -> bool:
+    """the impact matrices of the plan of `case` are well conditioned on the model of another variant as well"""
+    nper = case["nper"]
+    try:
+        I = [(s, t) for (k, s, t) in case["inst"] if k == "v"]
+        Tg = [(j, t) for (j, t, k) in case["targ"] if k == "a"]
+        if I:
+            imp = {c: impulse(m_k, spec_k, nper, "v", *c) for c in I}
+            if not _well_conditioned(np.array([[imp[c][j, t] for c in I] for (j, t) in Tg])):
+                return False
+        for t in sorted({t for (k, _s, t) in case["inst"] if k == "u"}):
+            S = [s for (k, s, tt) in case["inst"] if k == "u" and tt == t]
+            J = [j for (j, tt, k) in case["targ"] if k == "u" and tt == t]
+            imp = {s_: impulse(m_k, spec_k, nper, "u", s_, t) for s_ in S}
+            if not _well_conditioned(np.array([[imp[s_][j, t] for s_ in S] for j in J])):
+                return False
+    except Exception:  # noqa
+        return False
+    return True
+
+
+def variant_case(case, k) -> dict:
+    """the single-variant case that variant k of a multi-variant case must reproduce"""
+    base = {kk: v for kk, v in case.items() if kk != "variants"}
+    if k == 0:
+        return base
+    v = case["variants"][k - 1]
+    base.update({kk: v[kk] for kk in ("estar", "bg", "init", "noise", "stds")})
+    if v.get("factor") is not None:
+        base["spec"] = scale_spec(case["spec"], v["factor"])
+    return base
+
+
+_NV_MODELS: dict = {}
+
+
+def nv_model(case, singles):
+    """ONE model object with len(singles) variants; variant k carries the parameters of singles[k]"""
+    import irispie as ir
+    spec = case["spec"]
+    factors = [None] + [v.get("factor") for v in case["variants"]]
+    key = json.dumps([spec, factors], sort_keys=True)
+    if key in _NV_MODELS:
+        return _NV_MODELS[key]
+    nv = len(factors)
+    with contextlib.redirect_stdout(io.StringIO()):
+        if all(f is None for f in factors):
+            mm = singles[0].copy()
+            mm.alter_num_variants(nv)
+        else:
+            src, _p0 = C01.render_source(spec)
+            pk = [C01.render_source(variant_case(case, k)["spec"])[1] for k in range(nv)]
+            mm = ir.Simultaneous.from_string(src, linear=spec["linear"], flat=spec["flat"])
+            mm.alter_num_variants(nv)
+            mm.assign(**{nm: [pk[k][nm] for k in range(nv)] for nm in pk[0]})
+            mm.steady()
+            mm.solve()
+    _NV_MODELS[key] = mm
+    return mm
+
+
+def merge_dbs(dbs):
+    """single-variant databoxes -> one databox whose series have one column per variant"""
+    import irispie as ir
+    out = ir.Databox()
+    for nm in dbs[0].keys():
+        items = [d[nm] for d in dbs]
+        if isinstance(items[0], ir.Series):
+            st = min((x.start for x in items), key=lambda p: p.serial)
+            en = max((x.start + (x.data.shape[0] - 1) for x in items), key=lambda p: p.serial)
+            A = np.full((en - st + 1, len(items)), np.nan)
+            for k, x in enumerate(items):
+                o = x.start - st
+                A[o:o + x.data.shape[0], k] = np.asarray(x.data, dtype=float)[:, 0]
+            out[nm] = ir.Series(start=st, values=A)
+        else:
+            out[nm] = [float(np.asarray(x).ravel()[0]) for x in items]
+    return out
+
+
+def split_db(db, k, nv):
+    """variant k of a databox returned by a multi-variant simulation, as a single-variant databox"""
+    import irispie as ir
+    out = ir.Databox()
+    for nm in db.keys():
+        x = db[nm]
+        if isinstance(x, ir.Series):
+            D = np.asarray(x.data, dtype=float)
+            if D.shape[1] != nv:
+                raise ValueError(f"output series {nm} has {D.shape[1]} columns for {nv} variants")
+            out[nm] = ir.Series(start=x.start, values=D[:, k].copy())
+        elif isinstance(x, (list, tuple)):
+            out[nm] = x[k] if len(x) == nv else x[0]
+        else:
+            out[nm] = x
+    return out
 
 
 # =====================================================================================
@@ -259,6 +479,20 @@ def make_plan(m, case):
     import irispie as ir
     start, span = periods_of(case["nper"])
     p = ir.SimulationPlan(m, span)
+    if case.get("hist"):
+        for op in case["hist"]:
+            if op[0] == "w":
+                _w, reg, i, t, b = op
+                nm = C01.vname(i) if reg.startswith("exog") else \
+                    (C01.ename(i) if reg == "endogenized_unanticipated" else "ant_" + C01.ename(i))
+                getattr(p, _METHOD[reg])(start + t, nm, status=bool(b))
+            else:
+                _s, ant, j, sh, t, b = op
+                if ant:
+                    p.swap_anticipated(start + t, (C01.vname(j), "ant_" + C01.ename(sh)), status=bool(b))
+                else:
+                    p.swap_unanticipated(start + t, (C01.vname(j), C01.ename(sh)), status=bool(b))
+        return p
     for (kind, s, t) in case["inst"]:
         if kind == "u":
             p.endogenize_unanticipated(start + t, C01.ename(s))
@@ -278,8 +512,8 @@ def sim_kwargs(case):
     return {"method": "stacked_time", "solver_settings": {"step_tolerance": 1e10}}
 
 
-def run_case(case, m) -> dict:
-    """the driving simulation (shocks e* + background), the targets, the planned simulation"""
+def prepare(case, m) -> dict:
+    """the driving simulation (shocks e* + background) and the input databox of the planned simulation"""
     spec = case["spec"]
     start, span = periods_of(case["nper"])
     db1 = make_db(m, spec, case, case["estar"] + case["bg"])
@@ -291,8 +525,51 @@ def run_case(case, m) -> dict:
         if case["kind"] == "free":
             v = v * math.exp(eps) if spec["logs"][j] else v + eps
         db2[C01.vname(j)][start + t] = v
-    plan = make_plan(m, case)
-    rec = {"db1": db1, "drive": drive, "db2": db2, "span": span, "start": start, "plan": plan, "out": None, "error": None}
+    return {"db1": db1, "drive": drive, "db2": db2, "span": span, "start": start, "plan": None, "out": None, "error": None}
+
+
+def run_multi(case, m) -> dict:
+    """a case with parameter/data variants: ONE simulate call on the multi-variant model with the multi-column
+    databox; rec["per_variant"] = [(single-variant case, its model, acc, its rec with variant k of the output)]"""
+    nv = 1 + len(case["variants"])
+    start, span = periods_of(case["nper"])
+    per = []
+    for k in range(nv):
+        ck = variant_case(case, k)
+        got = (m, None) if (k == 0 or ck["spec"] == case["spec"]) else get_model(ck["spec"])
+        if got is None:
+            return {"error": None, "skip": True, "per_variant": []}
+        per.append([ck, got[0], got[1], prepare(ck, got[0])])
+    rec = {"per_variant": per, "span": span, "start": start, "error": None, "out": None, "nv": nv}
+    try:
+        with contextlib.redirect_stdout(io.StringIO()):
+            mm = per[0][1] if case.get("nv_kwarg") else nv_model(case, [p_[1] for p_ in per])
+            db2 = merge_dbs([p_[3]["db2"] for p_ in per])
+            plan = make_plan(mm, case)
+        rec["db2"], rec["plan"] = db2, plan
+        kw = dict(sim_kwargs(case), **({"num_variants": nv} if case.get("nv_kwarg") else {}))
+    except Exception as e:  # noqa -- the multi-variant object could not be set up: not a case
+        rec["skip"] = True
+        rec["setup_error"] = f"{type(e).__name__}: {str(e)[:300]}"
+        return rec
+    try:
+        with contextlib.redirect_stdout(io.StringIO()):
+            rec["out"] = mm.simulate(db2, span, plan=plan, **kw)
+        for k, p_ in enumerate(per):
+            p_[3]["out"] = split_db(rec["out"], k, nv)
+            p_[3]["plan"] = plan
+    except Exception as e:  # noqa
+        rec["error"] = f"{type(e).__name__}: {str(e)[:300]}"
+    return rec
+
+
+def run_case(case, m) -> dict:
+    """the driving simulation (shocks e* + background), the targets, the planned simulation"""
+    if case.get("variants"):
+        return run_multi(case, m)
+    rec = prepare(case, m)
+    db2, span = rec["db2"], rec["span"]
+    plan = rec["plan"] = make_plan(m, case)
     try:
         with contextlib.redirect_stdout(io.StringIO()):
             rec["out"] = m.simulate(db2, span, plan=plan, **sim_kwargs(case))
@@ -314,9 +591,32 @@ REPRO = ("harness.C07: m, _ = get_model(spec); rec = run_case(case, m); check_pr
          "# SimulationPlan(m, span); plan.exogenize_*/endogenize_*; m.simulate(db, span, plan=plan, method=...)")
 
 
+def shape_of(case) -> str:
+    return (f"{case['method']}:{case['mode']}" + ("+status-off" if hist_has_off(case) else "")
+            + ("+variants" if case.get("variants") else "") + ("(num_variants=)" if case.get("nv_kwarg") else ""))
+
+
 def check_property(case, m, rec, acc=None) -> list[Failure]:
+    if case.get("variants"):
+        if rec.get("skip"):
+            return []
+        inp = case_input(case)
+        if rec["error"]:
+            return [Failure(f"simulate:raises:{shape_of(case)}", "simulate with an exactly identified plan on a model "
+                            f"with {rec['nv']} variants raises {rec['error']}", inp, rec["error"], "a simulation", REPRO)]
+        fails = []
+        for k, (ck, mk, acck, reck) in enumerate(rec["per_variant"]):
+            if acck is None and ck["spec"] == case["spec"]:
+                acck = acc
+            for f in check_property(ck, mk, reck, acck):
+                key = f.key.replace(shape_of(ck), shape_of(case))
+                if all(g.key != key for g in fails):
+                    fails.append(Failure(key, f"variant {k} of {rec['nv']} (columns of the input databox / parameter "
+                                         f"variants of the model): {f.what}", inp, {"variant": k, "cells": f.observed},
+                                         f.required, REPRO))
+        return fails
     spec = case["spec"]
-    shape = f"{case['method']}:{case['mode']}"
+    shape = shape_of(case)
     inp = case_input(case)
     if rec["error"]:
         return [Failure(f"simulate:raises:{shape}", f"simulate with an exactly identified plan raises {rec['error']}",
@@ -775,18 +1075,29 @@ def collect_cases(ctx, n_cases, method_share=0.25):
             continue
         m, acc = got
         try:
-            case = gen_case(rng, spec, m, "first_order")
+            case = gen_case(rng, spec, m, "first_order", p_hist=0.35, p_var=0.25)
         except Exception:  # noqa -- the plain simulations used to pick a plan failed: not a plan case
             case = None
         if case is None:
             continue
         rec = run_case(case, m)
+        if case.get("variants"):
+            # one entry per variant: variant k of the output of the ONE multi-variant call against the model of the
+            # frame loop evaluated on variant k's parameters (solution matrices) and variant k's input columns
+            if rec.get("skip"):
+                continue
+            if rec["error"]:
+                out.append((case, m, acc, rec, None, None))
+                continue
+            for k, (ck, mk, acck, reck) in enumerate(rec["per_variant"]):
+                out.append((ck, mk, acck or acc, reck, None, (case, k)))
+            continue
         rec2 = None
         if truly_linear(spec) and rng.random() < method_share * 2.5:
             c2 = dict(case, method="stacked_time", deviation=False)
             if not case["deviation"]:
                 rec2 = (c2, run_case(c2, m))
-        out.append((case, m, acc, rec, rec2))
+        out.append((case, m, acc, rec, rec2, None))
     return out
 
 
@@ -807,8 +1118,13 @@ def correspondence(ctx) -> CorrResult:
     metas = {}
     cur, own = HEADER, []
     dist = {"mode": {}, "kind": {}, "deviation": 0, "log_models": 0, "frames>1": 0, "stacked_time_also": 0,
-            "endogenized_cells": 0, "anticipated_cells": 0, "not_expressible": 0, "impl_errors": 0}
-    for i, (case, m, acc, rec, rec2) in enumerate(cases):
+            "endogenized_cells": 0, "anticipated_cells": 0, "not_expressible": 0, "impl_errors": 0,
+            "variant_entries": 0, "variant_entries_own_parameters": 0, "status_off_histories": 0}
+    for i, (case, m, acc, rec, rec2, parent) in enumerate(cases):
+        if parent is not None:
+            dist["variant_entries"] += 1
+            dist["variant_entries_own_parameters"] += bool(parent[1] > 0 and parent[0]["variants"][parent[1] - 1].get("factor"))
+        dist["status_off_histories"] += bool(hist_has_off(case) and (parent is None or parent[1] == 0))
         if rec["error"]:
             dist["impl_errors"] += 1
             res.disagreements.append(Disagreement("simulate:raises", case_input(case), None, rec["error"]))
@@ -840,7 +1156,9 @@ def correspondence(ctx) -> CorrResult:
             shards.append(cur); owners.append(own); cur, own = HEADER, []
     if own:
         shards.append(cur); owners.append(own)
-    results = core.run_cases(ctx, shards, prefix="cond")
+    # 2^-384 fixed-point Kalman runs: 10-20 s of CPU per shard; the default 600 s per file is too short when the machine
+    # is heavily loaded by other checks (a timed-out shard would be reported as a coq-error disagreement)
+    results = core.run_cases(ctx, shards, prefix="cond", timeout=2400)
     evaluated = 0
     for (ok, out), own in zip(results, owners):
         if not ok:
@@ -851,7 +1169,7 @@ def correspondence(ctx) -> CorrResult:
             res.disagreements.append(Disagreement("conditional:parse", None, f"{len(bodies)} results", None))
             continue
         for body, (i, labs) in zip(bodies, own):
-            case, m, acc, rec, rec2 = cases[i]
+            case, m, acc, rec, rec2, parent = cases[i]
             per_out = parse_cells(body)
             for lab, cells in zip(labs, per_out):
                 evaluated += 1
@@ -862,12 +1180,17 @@ def correspondence(ctx) -> CorrResult:
                 fs = check_property(c_used, m, r_used, acc)
                 names = metas[i]["layout"]["names"]
                 lag = metas[i]["lag"]
+                where = f"conditional:{lab}:{case['mode']}"
+                d_inp = case_input(c_used)
+                if parent is not None:       # the falsifier re-runs the whole multi-variant call
+                    where += f":variant-{'0' if parent[1] == 0 else 'k'}-of-multi-variant-call"
+                    d_inp = case_input(parent[0])
                 res.disagreements.append(Disagreement(
-                    f"conditional:{lab}:{case['mode']}", case_input(c_used),
+                    where, d_inp,
                     {"cells_differing": [(names[r], c - lag) for r, c in cells[:8]]},
-                    {"property_failures": [f.key for f in fs]}))
+                    {"property_failures": [f.key for f in fs], "variant": None if parent is None else parent[1]}))
     res.evaluations = nh + evaluated
-    res.distinct_nontrivial = nontriv_h + len({json.dumps(case_input(c[0])["case"], sort_keys=True, default=str) for c in cases})
+    res.distinct_nontrivial = nontriv_h + len({json.dumps([case_input(c[0])["case"], c[0]["spec"]], sort_keys=True, default=str) for c in cases})
     res.shards += len(shards)
     res.distribution = {"bookkeeping": dist_h, "conditional": dist}
     res.samples = [{"plan_history": gen_history(ctx.rng)}] + [
@@ -969,7 +1292,8 @@ def run_nonlinear(inp) -> tuple[list[Failure], int]:
 def falsify(ctx, hints):
     rng = ctx.rng
     fails: list[Failure] = []
-    info = {"cases": {}, "checks": 0, "skipped": 0, "nonlinear_stacked_round_trips": 0}
+    info = {"cases": {}, "checks": 0, "skipped": 0, "nonlinear_stacked_round_trips": 0, "status_off_histories": 0,
+            "multi_variant_cases": 0, "variants_with_own_parameters": 0}
 
     def add(fs):
         for f in fs:
@@ -999,16 +1323,22 @@ def falsify(ctx, hints):
                 continue
             m, acc = got
             try:
-                case = gen_case(rng, spec, m, method, mode)
+                case = gen_case(rng, spec, m, method, mode, p_hist=0.4, p_var=0.35)
             except Exception:  # noqa
                 case = None
             if case is None:
                 info["skipped"] += 1
                 continue
             rec = run_case(case, m)
+            if rec.get("skip"):
+                info["skipped"] += 1
+                continue
             add(check_property(case, m, rec, acc))
             done += 1
-            key = f"{method}:{case['mode']}:{case['kind']}"
+            info["status_off_histories"] += hist_has_off(case)
+            info["multi_variant_cases"] += bool(case.get("variants"))
+            info["variants_with_own_parameters"] += sum(1 for v in case.get("variants", []) if v.get("factor"))
+            key = f"{shape_of(case)}:{case['kind']}"
             info["cases"][key] = info["cases"].get(key, 0) + 1
             info["checks"] += 4 if case["kind"] == "swap" else 3
     for _ in range(ctx.scale(25, 600)):
